@@ -32,6 +32,8 @@ class FlowGraph:
         self.calls = []          # (Call node, Func)
         self.subscript_loads = []
         self.ctor_edges = {}     # argument expression node -> constructor call expression node
+        self.call_in = {}        # (argument node, parameter node) -> id(call)   [entering a callee]
+        self.call_out = {}       # (return node, call expression node) -> id(call) [leaving a callee]
         self._props_by_name = {}
         self._fields_by_name = {}
         for c in prog.classes.values():
@@ -430,6 +432,7 @@ class FlowGraph:
                 for pname, arg in b["bound"].items():
                     if id(arg) in amap:
                         self.edge(amap[id(arg)], self.var(t, pname), "copy")
+                        self.call_in[(amap[id(arg)], self.var(t, pname))] = id(e)
                 if b["star"]:
                     for a, node in args:
                         if isinstance(a, ast.Starred):
@@ -448,12 +451,14 @@ class FlowGraph:
                         self.edge(n, self.var(t, t.params[0]), "copy")
                     elif recv is not None:
                         self.edge(recv, self.var(t, t.params[0]), "copy")
+                        self.call_in[(recv, self.var(t, t.params[0]))] = id(e)
                     elif kind == "super":
                         pass
                 if kind == "super" and f.cls is not None and f.params and t.params:
                     self.edge(self.var(f, f.params[0]), self.var(t, t.params[0]), "copy")
                 if kind != "ctor":
                     self.edge(self.ret(t), n, "copy")
+                    self.call_out[(self.ret(t), n)] = id(e)
             return
         name = e.func.attr if isinstance(e.func, ast.Attribute) else (e.func.id if isinstance(e.func, ast.Name) else None)
         if recv is not None and name in _MUTATORS:
@@ -471,6 +476,68 @@ class FlowGraph:
             self.edge(node, n, "derive")
         for _, node in kws:
             self.edge(node, n, "derive")
+
+    # ------------------------------------------------- context-sensitive slice
+    def provenance(self, target, sources, labels=("copy", "derive"), max_stack=6, limit=200000):
+        """Backward walk from `target` with matched call/return edges (a value that entered a
+        function through call site C leaves it backwards only to the arguments of C).
+        -> (set of sources reached, set of transformer names crossed, visited nodes)
+        A transformer is a package function whose *return value* lies on the way, or a
+        builtin / third-party call, subscript, operator producing a derived value."""
+        sources = set(sources)
+        start = (target, ())
+        seen = {start}
+        stack = [start]
+        reached, transformers, visited = set(), set(), set()
+        # transformers are attributed per path: carry them in the state would explode; instead
+        # record per node and rebuild by a second forward-restricted pass
+        parents = {start: None}
+        while stack:
+            st = stack.pop()
+            node, cstack = st
+            visited.add(node)
+            if node in sources:
+                reached.add(st)
+                continue
+            if len(seen) > limit:
+                raise AnalysisError("provenance walk explodes from %s" % self.describe(target))
+            for m, lab in self.pred.get(node, {}).items():
+                if lab not in labels:
+                    continue
+                ns = cstack
+                if (m, node) in self.call_out:           # stepping back into a callee through its return
+                    if len(cstack) >= max_stack:
+                        continue
+                    ns = cstack + (self.call_out[(m, node)],)
+                elif (m, node) in self.call_in:          # stepping back out of a callee to an argument
+                    site = self.call_in[(m, node)]
+                    if cstack:
+                        if cstack[-1] != site:
+                            continue
+                        ns = cstack[:-1]
+                nxt = (m, ns)
+                if nxt not in seen:
+                    seen.add(nxt)
+                    parents[nxt] = st
+                    stack.append(nxt)
+        for st in reached:
+            cur = st
+            while cur is not None:
+                node = cur[0]
+                par = parents[cur]     # parent is closer to the target
+                if par is not None:
+                    lab = self.pred.get(par[0], {}).get(node)
+                    if (node, par[0]) in self.call_out:
+                        transformers.add(node[1].split(":")[1])
+                    elif lab == "derive" and par[0][0] == "e":
+                        e, f = self.expr_index.get(par[0][1], (None, None))
+                        if isinstance(e, ast.Call):
+                            nm = e.func.attr if isinstance(e.func, ast.Attribute) else (e.func.id if isinstance(e.func, ast.Name) else "?")
+                            transformers.add(nm)
+                        elif e is not None:
+                            transformers.add(type(e).__name__)
+                cur = par
+        return {s[0] for s in reached}, transformers, visited
 
     # ----------------------------------------------------------------- query
     def tainted_exprs(self, tset):
